@@ -1,0 +1,7 @@
+//go:build verif
+
+package ansi
+
+// VerifInject delivers a sequence to the parser's consumer as if it had been
+// parsed from the input (used to provoke a panic inside the consumer).
+func (p *Parser) VerifInject(seq Sequence) { p.sequences <- seq }
